@@ -26,7 +26,7 @@ def run(tier):
     drv = mc.drivers()
     total = len(mine)
     combos = set((e["form"], e["verdict"]) for e in mine)
-    for tag in (("mask", "finder", "lp16", "gd") if thorough else ("mask", "lp16", "gd")):
+    for tag in (("mask", "finder", "lp16", "lp64u", "gd") if thorough else ("mask", "lp16", "lp64u", "gd")):
         tpath = mc.record(drv["mem_" + tag], wd, "entry", tag, thorough)
         ev, bad = mc.validate(chk, tpath, "entry/" + tag)
         total += len(ev)
